@@ -14,7 +14,7 @@ def NOT_REPRODUCED(msg=''):
 
 
 p = Path(QuadraticBezier(0j, 0j, 0j), Line(0j, (7.450580596923828e-09+0j)), Line(0j, (1+0j)))
-opts = dict(useSandT=True, use_closed_attrib=False, rel=False)
+opts = dict(useSandT=False, use_closed_attrib=False, rel=False)
 d = p.d(**opts)
 try:
     q = parse_path(d)
